@@ -63,6 +63,13 @@ fn compute_publish_packet_length_properties5(packet: &PublishPacket, alias_resol
         total_remaining_length += payload.len();
     }
 
+    // check before narrowing: a length of 2 ^ 32 or more would wrap around and pass every later size check
+    if total_remaining_length > MAXIMUM_VARIABLE_LENGTH_INTEGER {
+        let message = "compute_publish_packet_length_properties5 - vli value exceeds the protocol maximum (2 ^ 28 - 1)";
+        error!("{}", message);
+        return Err(GneissError::new_encoding_failure(message));
+    }
+
     Ok((total_remaining_length as u32, publish_property_section_length as u32))
 }
 
@@ -195,6 +202,13 @@ fn compute_publish_packet_length_properties311(packet: &PublishPacket) -> Gneiss
 
     if let Some(payload) = &packet.payload {
         total_remaining_length += payload.len();
+    }
+
+    // check before narrowing: a length of 2 ^ 32 or more would wrap around and pass every later size check
+    if total_remaining_length > MAXIMUM_VARIABLE_LENGTH_INTEGER {
+        let message = "compute_publish_packet_length_properties311 - vli value exceeds the protocol maximum (2 ^ 28 - 1)";
+        error!("{}", message);
+        return Err(GneissError::new_encoding_failure(message));
     }
 
     Ok(total_remaining_length as u32)
